@@ -39,6 +39,7 @@ type nilSummary struct {
 	paramNonNil    []bool // parameter k is non-nil at every in-package call site (unexported functions)
 	retFields      []strset // result i: access-path suffixes (".Regions") known non-nil at every return; nil = not yet computed
 	paramFields    []strset // parameter k: suffixes known non-nil at every in-package call site
+	paramIntLo     []int64  // parameter k (integer): lower bound over all in-package call sites (-infW unknown)
 	paramLenLo     []int64  // parameter k (slice/string): lower bound of its length over all in-package call sites
 }
 
